@@ -38,7 +38,7 @@ impl SourceMap {
         let offset = SourceMapOffset {
             scope,
             span,
-            pc: pc.as_usize()..(pc.as_usize() + len),
+            pc: pc.as_usize()..pc.as_usize().saturating_add(len),
             segment: segment.clone(),
         };
         self.offsets.push(offset);
